@@ -155,6 +155,16 @@ func requestSeeds() [][]byte {
 	for _, s := range hostile {
 		out = append(out, cat([]byte{0x02, 0, 0}, []byte(s)), cat([]byte{0x0c, 1, 0}, []byte(s)), cat([]byte{0x03, 0, 0}, []byte(s)))
 	}
+	// line ends at the end of a small read buffer (the 512 and 4096 byte sizes are in TestAlignment)
+	for _, sz := range alignSizes[:2] {
+		k := 0
+		alignedRequests(sz.size, 0, func(what string, req []byte) {
+			if k%3 == 0 {
+				out = append(out, cat([]byte{0x02 | sz.idx<<3, 0, 0}, req))
+			}
+			k++
+		})
+	}
 	return out
 }
 
@@ -178,6 +188,15 @@ func responseSeeds() [][]byte {
 	}
 	for _, s := range hostile {
 		out = append(out, cat([]byte{0x01, 0}, []byte(s)), cat([]byte{0x0b, 1}, []byte(s)))
+	}
+	for _, sz := range alignSizes[:2] {
+		k := 0
+		alignedResponses(sz.size, 0, func(what string, resp []byte) {
+			if k%3 == 0 {
+				out = append(out, cat([]byte{0x01 | sz.idx<<2, 0}, resp))
+			}
+			k++
+		})
 	}
 	return out
 }
